@@ -214,6 +214,9 @@ def i6_corpus(seed, tier):
         for _ in range(8 if gname.startswith('opt') else (3 if tier == 'quick' else 8)):
             jl.append(('hist', ','.join(rnd.choice(pool) for _ in range(rnd.randint(2, 6)))))
         jl.append(('xlate', '-6'))
+        if gname == 'c_expr' and sents:
+            # one context re-initialised ten thousand times (object mode keeps its stack slice between parses)
+            jl.append(('rep', '%s,10050' % sents[0]))
         for x in (sents[:3] + ins[1:3]):
             jl.append(('trace', x))
         for _ in range(2 if tier == 'quick' else 6):
@@ -516,6 +519,8 @@ def run_C08(ctx):
     ctx.extra['ts_covered'] = '__node__' not in out['ts_status']
     ctx.extra['ts_not_run'] = sorted(out['ts_status'])[:5]
     for gname, msg in out['ts_status'].items():
+        if msg == 'generation failed' and out['gen'].get(gname, {}).get('gp', {}).get('rc') != 0:
+            continue          # the grammar is refused for every target (an edge grammar): no parser, nothing to compare
         if gname != '__node__':
             ctx.violation('counterexample', 'TypeScript parser of grammar %s does not run: %s' % (gname, msg), case_of(out, gname, variant='ts', observed=msg), interface='I6')
     if not had_counterexample(ctx):
@@ -989,6 +994,16 @@ def run_C15(ctx):
                         ctx.nontrivial.add((gname, vn, payload))
                     if ctx.evaluations % 199 == 1:
                         ctx.sample(dict(grammar=gname, variant=vn, history=parts, results=got))
+                elif mode == 'rep':
+                    # the same input ten thousand times on one parser / context: every result is the result of the input alone
+                    inp, cnt = payload.split(',')
+                    f = raw.split(' ; ')
+                    alone = rs.get(('run', inp))
+                    ctx.evaluations += 1
+                    if len(f) != 3 or f[2] != '1' or (alone is not None and (f[0] != alone or f[1] != alone)):
+                        ctx.violation('counterexample', 'grammar %s variant %s: %s parses of %r one after the other on the same parser give %s distinct results (first %s, last %s); alone the input gives %s'
+                                      % (gname, vn, cnt, inp, f[2] if len(f) == 3 else '?', f[0][:80], f[1][:80] if len(f) > 1 else '?', alone),
+                                      case_of(out, gname, variant=vn, input=payload, mode='rep', observed=raw[:400], expected=alone), interface='I6')
                 elif mode in ('nest', 'nestr'):
                     a, b, k = payload.split(',')
                     ctx.evaluations += 1
